@@ -346,6 +346,10 @@ var boundaryTemplates = []struct {
 	{"m = make([][]int64, 1)\nm[0] = [1, 2, 3]\nn = 0\nfor x in m[0] {\nm[0] = []\nn += x\n}\nprobe(n)", []string{"(i 6)"}, ""},
 	{"s = make(struct { L []int64 })\ns.L = [1, 2, 3]\nn = 0\nfor x in s.L {\ns.L = [9]\nn += x\n}\nprobe(n)", []string{"(i 6)"}, ""},
 	{"v = [1, 2, 3]\nn = 0\nfor x in v {\nv = [9]\nn += x\n}\nprobe(n)", []string{"(i 6)"}, ""},
+	// ... also when the subject is a CHANNEL read from a typed slot or a field: the loop keeps receiving from the channel it started on
+	{"a = make([]chan int64, 1)\na[0] = make(chan int64, 3)\nb = make(chan int64, 3)\na[0] <- 1\nb <- 10\nb <- 20\nclose(a[0])\nclose(b)\nn = 0\nfor v in a[0] {\nn += v\na[0] = b\n}\nprobe(n)", []string{"(i 1)"}, ""},
+	{"s = make(struct { C chan int64 })\ns.C = make(chan int64, 3)\nb = make(chan int64, 3)\ns.C <- 1\ns.C <- 2\nb <- 10\nclose(s.C)\nclose(b)\nn = 0\nfor v in s.C {\nn += v\ns.C = b\n}\nprobe(n)", []string{"(i 3)"}, ""},
+	{"c = make(chan int64, 3)\nb = make(chan int64, 3)\nc <- 1\nc <- 2\nb <- 10\nclose(c)\nclose(b)\nn = 0\nfor v in c {\nn += v\nc = b\n}\nprobe(n)", []string{"(i 3)"}, ""},
 	{"r = 0\nfor i = 0; i < 3; i++ {\nr = func() {\nfor {\nbreak\n}\nreturn i\n}()\nprobe(r)\n}", []string{"(i 0)", "(i 1)", "(i 2)"}, ""},
 	{"probe(func() {\nmodule a {\nreturn 10\n}\nreturn 20\n}())", []string{"(i 10)"}, ""},
 	{"probe(func() {\nmodule a {\nif true {\nfor {\nreturn 1, 2\n}\n}\n}\n}())", []string{"(l (i 1) (i 2))"}, ""},
